@@ -1421,6 +1421,8 @@ func run(seed int64, n int, dir string, _ []string) {
 	likeCases(g, pr, o, n)
 	setOperatorCases(g, pr, o, n)
 	lateralModelCases(g, pr, o, n)
+	lateralDeepCases(g, pr, o, n)
+	aggSubqueryCases(g, pr, o, n)
 	starExpansionCases(g, pr, o, n)
 	precedenceSessions(g, o, n)
 	recursiveNamedCases(g, o, n)
